@@ -96,6 +96,12 @@ def build_lib(variant="hooks", targets=("xerces-c",)):
     """(Re)build the library from /repo's current working tree. Incremental via ninja."""
     bdir = lib_dir(variant)
     btype, flags, cxx = VARIANTS[variant]
+    # ccache (if installed) makes builds of scratch worktrees (mutants, seeded changes) cheap: only the files a
+    # patch touches are really compiled. The cache lives under /verif/.build and is keyed on preprocessed text.
+    cc_env = None
+    if shutil.which("ccache"):
+        cc_env = {"CCACHE_DIR": os.path.join(ROOT, ".build", "ccache"), "CCACHE_BASEDIR": REPO, "CCACHE_NOHASHDIR": "1",
+                  "CCACHE_MAXSIZE": "20G"}
     with _Lock("build-" + variant):
         t0 = time.time()
         if not os.path.exists(os.path.join(bdir, "build.ninja")):
@@ -105,10 +111,12 @@ def build_lib(variant="hooks", targets=("xerces-c",)):
             if "fsanitize" in flags:
                 cmd += ["-DCMAKE_SHARED_LINKER_FLAGS=-fsanitize=address,undefined",
                         "-DCMAKE_EXE_LINKER_FLAGS=-fsanitize=address,undefined"]
-            rc, out = run(cmd, timeout=3600)
+            if cc_env:
+                cmd += ["-DCMAKE_CXX_COMPILER_LAUNCHER=ccache", "-DCMAKE_C_COMPILER_LAUNCHER=ccache"]
+            rc, out = run(cmd, timeout=3600, env=cc_env)
             if rc != 0:
                 raise InfraError("cmake configure failed:\n" + out[-3000:])
-        rc, out = run(["ninja", "-C", bdir] + list(targets), timeout=7200)
+        rc, out = run(["ninja", "-C", bdir] + list(targets), timeout=7200, env=cc_env)
         if rc != 0:
             raise InfraError("build of /repo working tree failed (variant %s):\n%s" % (variant, out[-6000:]))
         log("library %s up to date (%.1fs)" % (variant, time.time() - t0))
